@@ -22,7 +22,7 @@ THEOREMS = ['C07_prefix_inj', 'C07_prefix_unique', 'C07_prefix_total', 'C07_sort
             'C07_toposort_sound', 'C07_toposort_det', 'C07_doc_det', 'C07_doc_det_decidable', 'C07_doc_det_tiers',
             'C07_topo_key_names',
             'C07_wsdl_closed', 'C07_one_op', 'C07_binding_unique', 'C07_binding_ops', 'C07_schema_closed',
-            'C07_imports_closed', 'C07_rebuilds_schema',
+            'C07_imports_closed', 'C07_rebuilds_schema', 'C07_resets_tables',
             'C07_wf_decidable', 'C07_foreign_bare_refuted', 'C07_header_reuse_refuted']
 
 HERE = os.path.abspath(__file__)
@@ -838,6 +838,96 @@ def served_leg(check, name, spec, doc, features):
     return served.get('lxml', (None, None))
 
 
+FAIL_POINTS = ('add_messages_for_methods', 'add_port_type', 'add_bindings_for_methods', '_add_port_to_service',
+               'after-bindings')
+
+def history_leg(check, name, spec, doc, features, force=None):
+    """a first build of the WSDL that fails at a chosen point (before / in the middle of / after the portType and
+    binding phases), then a second ?wsdl request on the same server: WsgiApplication builds again on the same
+    Wsdl11 instance.  The second answer must be the whole document: the bytes of a never-failed application.
+    Also: two successful builds on one instance give the same bytes."""
+    from spyne.interface.wsdl import Wsdl11
+    if spec.get('preprefix') or (features & GUARD_REGIONS):
+        # (in the regions of the known findings the first document is already reported: there a prefix is handed
+        # out after wsdl:definitions was created, which a second build then finds declared)
+        return
+    region = region_of(features)
+    point = check.rng.choice(FAIL_POINTS)
+    nth = check.rng.choice([1, 1, 2])           # fail in the first or in the second call of that emitter
+    if force is not None and force[0] in FAIL_POINTS:
+        point, nth = force
+    class Boom(Exception):
+        pass
+    state = {'calls': 0, 'armed': True}
+    if point == 'after-bindings':
+        target, attr = None, None
+    else:
+        attr = point
+    try:
+        b = build_app(spec)
+        w = b.app.interface.docs.wsdl11
+        if attr is not None:
+            orig = getattr(Wsdl11, attr)
+            def failing(self, *a, **k):
+                if self is w and state['armed']:
+                    state['calls'] += 1
+                    if state['calls'] == nth:
+                        state['armed'] = False
+                        raise Boom('C07: injected failure in %s' % attr)
+                return orig(self, *a, **k)
+            setattr(Wsdl11, attr, failing)
+        else:
+            # fails in the document_built event, i.e. when every node is already in place
+            def handler(doc_):
+                if state['armed']:
+                    state['armed'] = False
+                    raise Boom('C07: injected failure after the bindings')
+            w.event_manager.add_listener('wsdl_document_built', handler)
+        try:
+            st1, body1, wsgi = fetch_wsdl(b.app)
+            body2 = fetch_again(wsgi)
+            st2 = '200' if body2[:5] == b'<?xml' else 'not-a-document'
+        finally:
+            if attr is not None:
+                setattr(Wsdl11, attr, orig)
+    except Exception as e:
+        check.mismatch('harness', 'history leg of %s raised %r' % (name, e))
+        return
+    failed_first = not state['armed'] and not st1.startswith('200')
+    check.count(('history', name, point, nth, json.dumps(spec, sort_keys=True)))
+    rp = {'spec': spec, 'name': name, 'stage': 'history', 'fail_in': point, 'nth': nth}
+    if body2 != doc:
+        try:
+            npt = len(parse_doc(body2)['pts'])
+            what = '%d portType elements, %d in the document of a fresh application; first difference: %s' % (
+                npt, len(parse_doc(doc)['pts']), first_diff(doc, body2))
+            site = diff_site(doc, body2)
+        except Exception:
+            what, site = 'the answer is not a WSDL: %r' % body2[:60], 'not-a-document'
+        check.fail('C07|determinism|rebuild-after-failed-build|%s|%s' % (point, site),
+                   '%s: the first ?wsdl request failed in %s (%s), the second request on the same server was answered '
+                   'with a document that is not the one a never-failed application serves: %s'
+                   % (name, point, st1 or 'no status', what), rp)
+    # two complete builds on one instance
+    try:
+        b3 = build_app(spec)
+        w3 = b3.app.interface.docs.wsdl11
+        w3.build_interface_document(WSDL_URL)
+        d1 = w3.get_interface_document()
+        w3.build_interface_document(WSDL_URL)
+        d2 = w3.get_interface_document()
+        if d1 != doc or d2 != doc:
+            check.fail('C07|determinism|second-build-on-one-instance|%s' % diff_site(doc, d2 if d2 != doc else d1),
+                       '%s: build_interface_document called twice on one Wsdl11 instance: the %s document differs from '
+                       'the one a fresh instance builds: %s' % (name, 'second' if d1 == doc else 'first',
+                                                                first_diff(doc, d2 if d1 == doc else d1)), 
+                       {'spec': spec, 'name': name, 'stage': 'history', 'fail_in': 'none', 'nth': 0})
+    except Exception as e:
+        check.fail('C07|determinism|second-build-on-one-instance|%s' % type(e).__name__,
+                   '%s: a second build_interface_document on one Wsdl11 instance raised %s: %s' % (name, type(e).__name__, str(e)[:200]),
+                   {'spec': spec, 'name': name, 'stage': 'history', 'fail_in': 'none', 'nth': 0})
+
+
 def fetch_again(wsgi):
     env = {'REQUEST_METHOD': 'GET', 'PATH_INFO': '/app', 'SCRIPT_NAME': '', 'QUERY_STRING': 'wsdl',
            'SERVER_NAME': 'c07.invalid', 'SERVER_PORT': '80', 'SERVER_PROTOCOL': 'HTTP/1.1',
@@ -1321,6 +1411,7 @@ def process(check, name, spec, cases, want_zeep=True, want_served=True):
     b_lxml, doc_lxml = (None, None)
     if want_served:
         b_lxml, doc_lxml = served_leg(check, name, spec, doc, features)
+        history_leg(check, name, spec, doc, features)
     # rebuilding in the same process gives the same bytes
     try:
         doc2 = build_wsdl(build_app(spec).app)
@@ -1481,6 +1572,10 @@ def replay(check, path):
     cases = []
     if rp.get('stage') == 'determinism':
         determinism(check, [(rp.get('name', 'replay'), spec)], rp.get('seeds', [0, 1]) + [2, 3])
+    elif rp.get('stage') == 'history':
+        doc = build_wsdl(build_app(spec).app)
+        history_leg(check, rp.get('name', 'replay'), spec, doc, spec_features(spec),
+                    force=(rp.get('fail_in'), rp.get('nth', 1)))
     else:
         process(check, rp.get('name', 'replay'), spec, cases, want_zeep=True)
     for key, what, p in check.violations:
